@@ -619,6 +619,7 @@ func (w *World) execCrash(op Op) {
 	pre := w.st.Clone()
 	from := w.st.LogLen()
 	lastSaved := w.lastSaveTip
+	deepBefore := w.deepReorgSinceSave // as it was before the operation whose prefixes are enumerated
 	name := "clean"
 	if op.A&1 == 1 {
 		name = "save"
@@ -642,7 +643,9 @@ func (w *World) execCrash(op Op) {
 	for k := 0; k <= len(muts); k++ {
 		img := pre.Clone()
 		img.Apply(muts[:k])
+		w.imageAfterDeepReorg = deepBefore
 		w.checkImage(img, fmt.Sprintf("%s, crash after %d of %d storage mutations", name, k, len(muts)), lastSaved)
+		w.imageAfterDeepReorg = false
 	}
 }
 
@@ -690,7 +693,7 @@ func (w *World) checkImage(img *simstore.Store, what string, lastSaved *model.No
 	if repo.AccumulatedWork().Cmp(tn.Work) != 0 {
 		w.c.Fail("c12.work-consistent", "work-mismatch", "%s: loaded accumulated work %s differs from the tip's %s", what, repo.AccumulatedWork().Text(16), tn.Work.Text(16))
 	}
-	if w.deepReorgSinceSave {
+	if w.imageAfterDeepReorg {
 		w.ancestrySuffix = ":after-reorg-deeper-than-prune-depth"
 	}
 	linked := w.checkAncestry("c12.chain-linked", repo, tn)
